@@ -12,10 +12,10 @@ well-formed range):
 * the serde form is the quoted printed form and deserialisation is `parse` of the printed form
   (`C13_serde`), so the serde round trip is the print/parse round trip.
 
-**Partial**: the round trip itself (`Range::parse(r.to_string())` equals `r`, printing is stable) is
-not yet a theorem; it is established per run by the correspondence check and the C13 oracle on
-parsed ranges, on every result of `intersect`/`difference` and on compositions (ops `rround`,
-`serder`, `isect`, `rdiff`, `expr`), labelled as testing in the evidence.
+The round trip itself (`Range::parse(r.to_string())` equals `r` as a value, admits the same versions,
+printing is stable) is proved in `Props/C13b.lean` (`C13_roundtrip_good`, `C13_roundtrip_parsed`,
+`C13_roundtrip_intersect`, `C13_roundtrip_difference`) on top of the parser lemmas of
+`Lemmas/RangeText.lean` and the invariant `Good` of `Lemmas/PrintableInv.lean`.
 -/
 namespace Semver.C13
 open Semver Pred Bound
